@@ -1,6 +1,7 @@
 package rules
 
 import (
+	"go/token"
 	"go/types"
 	"strings"
 
@@ -213,12 +214,26 @@ func runC24(c *an.Ctx) {
 				return
 			}
 			if t, f, ok := an.FieldOf(st.Addr); ok && t == "responseHeader" {
+				// a reply helper shared by several reject sites is judged once per call site
 				switch f {
 				case "Seq":
-					okSeq = an.Path(st.Val) == "$2.Seq"
+					okSeq = true
+					for _, v := range an.SiteValues(st.Val) {
+						okSeq = okSeq && an.Path(v) == "$2.Seq"
+					}
 				case "Error":
-					if v, isC := an.ConstString(st.Val); isC {
-						okErr = v
+					all := true
+					var names []string
+					for _, v := range an.SiteValues(st.Val) {
+						if cs, isC := an.ConstString(v); isC && cs != "" {
+							names = append(names, cs)
+						} else {
+							all = false
+						}
+					}
+					if all && len(names) > 0 {
+						okErr = strings.Join(names, " / ")
+						nRej += len(names) - 1
 					}
 				}
 			}
@@ -500,7 +515,74 @@ func runC25(c *an.Ctx) {
 			}
 		})
 		c.Floor("R2", "enqueue sites in HandleEvent", len(enq), 1)
+		// the search may also be slices.ContainsFunc over the stream's filters with a closure that returns
+		// the filter's verdict on this event
+		viaContains := map[string]bool{}
+		an.Instrs(he, func(in ssa.Instruction) {
+			call, ok := in.(*ssa.Call)
+			if !ok || len(call.Call.Args) != 2 {
+				return
+			}
+			callee := an.StaticCallee(&call.Call)
+			if callee == nil || !strings.HasPrefix(an.CalleeName(callee), "slices.ContainsFunc") || an.Path(call.Call.Args[0]) != "$0.filters" {
+				return
+			}
+			mc, ok := call.Call.Args[1].(*ssa.MakeClosure)
+			if !ok || len(mc.Bindings) != 1 {
+				return
+			}
+			// the captured variable is the event (captured by reference: a cell holding $1, stored once)
+			if al, isAl := mc.Bindings[0].(*ssa.Alloc); isAl {
+				nSt, okSt := 0, false
+				for _, u := range *al.Referrers() {
+					if st, isSt := u.(*ssa.Store); isSt && st.Addr == ssa.Value(al) {
+						nSt++
+						okSt = an.Path(st.Val) == "$1"
+					}
+				}
+				if nSt != 1 || !okSt {
+					return
+				}
+			} else if an.Path(mc.Bindings[0]) != "$1" {
+				return
+			}
+			cf, _ := mc.Fn.(*ssa.Function)
+			if cf == nil || len(cf.Params) != 1 {
+				return
+			}
+			all := len(an.Returns(cf)) > 0
+			for _, r := range an.Returns(cf) {
+				v := an.ResultValues(r)
+				inv, isCall := v[0].(*ssa.Call)
+				if len(v) != 1 || !isCall || !an.IsCallTo(inv, "(*EventFilter).Invoke") || len(inv.Call.Args) != 2 {
+					all = false
+					continue
+				}
+				// receiver: the closure's own parameter (the filter under test); argument: the captured event
+				_, argIsFree := inv.Call.Args[1].(*ssa.FreeVar)
+				if ld, isLd := inv.Call.Args[1].(*ssa.UnOp); isLd && ld.Op == token.MUL {
+					_, argIsFree = ld.X.(*ssa.FreeVar)
+				}
+				recvOK := false
+				if al, isAl := inv.Call.Args[0].(*ssa.Alloc); isAl {
+					for _, u := range *al.Referrers() {
+						if st, isSt := u.(*ssa.Store); isSt && st.Addr == ssa.Value(al) && st.Val == ssa.Value(cf.Params[0]) {
+							recvOK = true
+						}
+					}
+				}
+				if !argIsFree || !recvOK {
+					all = false
+				}
+			}
+			if all {
+				viaContains[an.Path(call)] = true
+			}
+		})
 		matched := an.EdgesWhere(he, func(f an.Cmp) bool {
+			if viaContains[f.L] && f.Op == "==" && f.R == "c:true" {
+				return true
+			}
 			return strings.HasPrefix(f.L, "(*EventFilter).Invoke(") && strings.HasSuffix(f.L, ",$1)") && f.Op == "==" && f.R == "c:true"
 		})
 		c.Floor("R2", "filter-match edges", len(matched), 1)
@@ -508,7 +590,7 @@ func runC25(c *an.Ctx) {
 			c.Add(an.Guarded(he, e, matched), "R2", "HandleEvent:filter-first", e, "an event is enqueued only if one of the stream's filters matched it", "edge dominance")
 		}
 		// the filters consulted are the stream's own
-		okF := false
+		okF := len(viaContains) > 0
 		for _, call := range an.CallsTo(he, "(*EventFilter).Invoke") {
 			recv := an.Path(an.CallOf(call).Args[0])
 			okF = strings.HasPrefix(recv, "&$0.filters[")
